@@ -24,7 +24,18 @@ func (v *FnVC) panicCheck(kind, cond, text string, pos token.Pos) {
 	if v.nopanic {
 		v.oblige("nopanic-"+kind, cond, text, pos)
 	}
-	v.assume(v.reach[v.curBlock], cond)
+	v.narrow(cond)
+}
+
+// narrow restricts the rest of the current block (and its successors) to executions satisfying cond.
+// It must NOT be a global assumption guarded by the block's reachability: that would make the obligation just
+// generated for the same condition (and every earlier obligation of the block) vacuous.
+func (v *FnVC) narrow(cond string) {
+	if cond == "true" {
+		return
+	}
+	old := v.reach[v.curBlock]
+	v.reach[v.curBlock] = v.define("reach_n", "Bool", fmt.Sprintf("(and %s %s)", old, cond))
 }
 
 func (v *FnVC) encodeInstr(ins ssa.Instruction) {
